@@ -1,0 +1,5 @@
+//go:build !verif
+
+package fasthttp
+
+func vhook(ev string, o1, o2 any, a, b int) {}
